@@ -598,6 +598,9 @@ class Program:
             with open(path) as f:
                 j = json.load(f)
         import anchors
+        self.moved_items = {}
+        if not os.environ.get('PEARL_VERIF_PINNING'):
+            j, self.moved_items = anchors.canonicalise_paths(j)
         self.renamed_fields = anchors.canonicalise(j)
         self.rebound_fns = anchors.rebind_functions(j)
         import inline
